@@ -64,7 +64,12 @@ def run_shard(spec, ctx):
                 _one(ns, ctx, tmwork.alias_geo_case(rnd, g0))
                 ctx.count('alias_sequences')
             if rnd.random() < 0.15:
-                _one(ns, ctx, tmwork.near_axis_grid_case(rnd))
+                c3 = tmwork.near_axis_grid_case(rnd)
+                if rnd.random() < 0.5:
+                    c3['ell'], c3['prj'], c3['hemi'] = 'grs80', 'utm', 'south'      # the stand-alone converter's domain
+                    if c3['east'] != 500000.0 and abs(c3['east'] - 500000.0) > 5:
+                        c3['east'] = round(500000.0 + rnd.choice([1, -1]) * 10 ** rnd.uniform(-4, 0.5), 4)
+                _one(ns, ctx, c3)
                 ctx.count('near_axis_cases')
     finally:
         reach.stop()
